@@ -124,6 +124,30 @@ Proof.
   - destruct e as [| [] | |]; discriminate.
 Qed.
 
+Ltac mdec H :=
+  lazymatch type of H with
+  | bindM _ _ _ = Ok _ =>
+      let a := fresh "a" in let s1 := fresh "s" in let E1 := fresh "E" in
+      apply bind_ok in H as (a & s1 & E1 & H);
+      try (lazymatch type of a with (_ * _)%type => destruct a end);
+      try (lazymatch type of a with (_ * _)%type => destruct a end); mdec H
+  | ret _ _ = Ok _ => unfold ret in H; inversion H; subst; clear H
+  | fail _ _ = Ok _ => discriminate H
+  | verr _ = Ok _ => discriminate H
+  | ierr _ _ = Ok _ => discriminate H
+  | unm _ _ = Ok _ => discriminate H
+  | (match ?x with _ => _ end) _ = Ok _ => destruct x; mdec H
+  | (if ?b then _ else _) _ = Ok _ => destruct b; mdec H
+  | (let '(_, _) := ?x in _) _ = Ok _ => destruct x; mdec H
+  | _ => idtac
+  end.
+
+Ltac mdec_for l :=
+  match goal with
+  | H : _ = Ok ((_, l), _) |- _ => mdec H
+  | H : _ = Ok (l, _) |- _ => mdec H
+  end.
+
 Section Flat.
 Variable check_only : bool.
 Variable externals : list string.
@@ -144,11 +168,7 @@ Proof.
     + destruct reqd as [[]|]; try (unfold verr, fail in E; discriminate);
         apply bind_ok in E as (? & ? & _ & E); unfold ret in E; inversion E; subst; apply FL_nil.
     + apply bind_ok in E as (? & ? & _ & E). unfold ret in E; inversion E; subst; apply FL_nil.
-  - (* EIndexE *)
-    destruct c; try (unfold ierr, fail in E; discriminate).
-    + apply bind_ok in E as (? & ? & _ & E). unfold ret in E; inversion E; subst; apply FL_nil.
-    + destruct (base_name _); [|unfold unm, fail in E; discriminate].
-      apply bind_ok in E as (? & ? & _ & E). unfold ret in E; inversion E; subst; apply FL_nil.
+  - (* EIndexE *) mdec E; apply FL_nil.
   - (* EUn *)
     apply bind_ok in E as ([v1 st1] & s1 & E1 & E). apply bind_ok in E as (? & ? & _ & E).
     apply bind_ok in E as (? & ? & _ & E). unfold ret in E; inversion E; subst. eapply IHe; eauto.
@@ -157,11 +177,7 @@ Proof.
     apply bind_ok in E as (? & ? & _ & E). unfold ret in E; inversion E; subst.
     apply FL_app; [eapply IHl; eauto|eapply IHr; eauto].
   - (* ECall *) eapply Hcr; eauto.
-  - (* ESizeOf *)
-    destruct t; try (unfold verr, fail in E; discriminate).
-    apply bind_ok in E as (? & ? & _ & E). apply bind_ok in E as (? & ? & _ & E).
-    destruct (get_visible _ _); [|unfold ierr, fail in E; discriminate].
-    destruct (v_dims _) as [[|? ?]|]; unfold verr, unm, fail in E; discriminate.
+  - (* ESizeOf *) mdec E; apply FL_nil.
 Qed.
 
 (* ---------- automation ---------- *)
@@ -194,33 +210,14 @@ Proof. unfold visit_qubit_decl. repeat fm_step. fl_solve. Qed.
 Lemma FM_const_decl t name init : FM (visit_const_decl check_only call_rec t name init).
 Proof. unfold visit_const_decl. repeat fm_step; fl_solve. Qed.
 
-Ltac mdec H :=
-  lazymatch type of H with
-  | bindM _ _ _ = Ok _ =>
-      let a := fresh "a" in let s1 := fresh "s" in let E1 := fresh "E" in
-      apply bind_ok in H as (a & s1 & E1 & H);
-      try (lazymatch type of a with (_ * _)%type => destruct a end);
-      try (lazymatch type of a with (_ * _)%type => destruct a end); mdec H
-  | ret _ _ = Ok _ => unfold ret in H; inversion H; subst; clear H
-  | fail _ _ = Ok _ => discriminate H
-  | verr _ = Ok _ => discriminate H
-  | ierr _ _ = Ok _ => discriminate H
-  | unm _ _ = Ok _ => discriminate H
-  | (match ?x with _ => _ end) _ = Ok _ => destruct x; mdec H
-  | (if ?b then _ else _) _ = Ok _ => destruct b; mdec H
-  | (let '(_, _) := ?x in _) _ = Ok _ => destruct x; mdec H
-  | _ => idtac
-  end.
 
-Ltac mdec_for l :=
-  match goal with
-  | H : _ = Ok ((_, l), _) |- _ => mdec H
-  | H : _ = Ok (l, _) |- _ => mdec H
-  end.
+
+Lemma FM_array_decl base dims name init : FM (visit_array_decl call_rec base dims name init).
+Proof. unfold visit_array_decl; cbv zeta. repeat fm_step; fl_solve. Qed.
 
 Lemma FM_classical_decl t name init : FM (visit_classical_decl check_only call_rec t name init).
 Proof.
-  unfold visit_classical_decl. repeat fm_step; fl_solve.
+  unfold visit_classical_decl. repeat fm_step; fl_solve; try apply FM_array_decl.
   all: match goal with |- FL ?l => mdec_for l end; fl_solve.
 Qed.
 
@@ -382,8 +379,11 @@ Proof.
   apply bind_ok in E as (? & ? & _ & E).
   apply bind_ok in E as (? & ? & _ & E).
   apply bind_ok in E as (? & ? & _ & E).
+  apply bind_ok in E as (? & ? & _ & E).
   apply bind_ok in E as ([out retstmt] & sb & Ebody & E).
   apply bind_ok in E as ([rv rstmts] & sr & Eret & E).
+  apply bind_ok in E as (sf & ? & _ & E).
+  apply bind_ok in E as (? & ? & _ & E).
   apply bind_ok in E as (? & ? & _ & E).
   assert (Hout : FL out) by (eapply body_loop_flat; exact Ebody).
   assert (Hr : FL rstmts).
